@@ -100,6 +100,10 @@ func vC04(a *asset, repID string, mode, atoMode int) {
 			d := vDeltaMS(e1)
 			vAssert("C04.delta-lower", (d+1)*ts >= rhs-lhs)
 			vAssert("C04.delta-upper", (d-1)*ts <= rhs-lhs)
+			if atoMode == 0 && (rhs-lhs)%ts == 0 {
+				// the remaining time is a whole number of milliseconds: the body states exactly that number
+				vAssert("C04.delta-exact", d*ts == rhs-lhs)
+			}
 		}
 	}
 	vReach("C04.end")
